@@ -176,6 +176,37 @@ L_Conv ==
     \/ /\ PrintT(<<"DIVERGED", Lg.cid, LD9(Lg), LD13(Lg), LD15(Lg), LD16(Lg), LD17(Lg), LD18(Lg)>>)
        /\ (LD9(Lg) \/ LD13(Lg) \/ LD15(Lg) \/ LD16(Lg) \/ LD17(Lg) \/ LD18(Lg))
 
+\* C02 (schedules): with respect to the members that are in the session throughout the phase, every accepted
+\* change of another connection is relayed exactly once
+Count(sq, P(_)) == Cardinality({i \in DOMAIN sq : P(sq[i])})
+HasMsg(sq, t)   == \E i \in DOMAIN sq : sq[i].t = t
+FirstMsg(sq, t) == sq[CHOOSE i \in DOMAIN sq : sq[i].t = t /\ \A j \in DOMAIN sq : sq[j].t = t => i <= j]
+PreRow(e, c)    == CHOOSE r \in ToSet(e.pre) : r[1] = c
+ReqKind(e, c)   == IF \E q \in ToSet(e.reqs) : q[1] = c THEN (CHOOSE q \in ToSet(e.reqs) : q[1] = c)[2].k ELSE "none"
+L_RelayOnce ==
+  AfterPhase =>
+    \A d \in Conns :
+      LET b == PreRow(Lg, d)  a == LConnRow(Lg, d)  od == NormOut(Lg.douts[d]) IN
+      (b[3] # 0 /\ b[2] = a[2] /\ b[3] = a[3] /\ ReqKind(Lg, d) \notin {"Join", "Disc"}) =>
+        /\ \A q \in ToSet(Lg.reqs) :
+             LET c == q[1]  rq == q[2]  oc == NormOut(Lg.douts[c])  bc == PreRow(Lg, c) IN
+             c # d =>
+               /\ (rq.k = "EntityAdd" /\ bc[2] = b[2] /\ bc[3] # 0 /\ HasMsg(oc, "ENTITY_ADD_RESPONSE")) =>
+                     Count(od, LAMBDA m : m.t = "ENTITY_ADD_BROADCAST" /\ m.eid = FirstMsg(oc, "ENTITY_ADD_RESPONSE").eid) = 1
+               /\ (rq.k = "EntityDelete" /\ bc[2] = b[2] /\ bc[3] # 0 /\ HasMsg(oc, "ENTITY_DELETE_RESPONSE")) =>
+                     Count(od, LAMBDA m : m.t = "ENTITY_DELETE_BROADCAST" /\ m.eid = rq.eid) = 1
+               /\ (rq.k = "Join" /\ HasMsg(oc, "JOIN_RESPONSE") /\ FirstMsg(oc, "JOIN_RESPONSE").sid = b[2]) =>
+                     Count(od, LAMBDA m : m.t = "JOIN_BROADCAST" /\ m.pid = FirstMsg(oc, "JOIN_RESPONSE").pid) = 1
+               /\ (rq.k = "Action" /\ bc[2] = b[2] /\ bc[3] # 0 /\ HasMsg(oc, "ACTION_RESPONSE")) =>
+                     Count(od, LAMBDA m : m.t = "ACTION_BROADCAST" /\ m.eid = rq.eid /\ m.v = rq.v) = 1
+        \* departures (by disconnect or by joining elsewhere) of connections that were in d's session
+        /\ \A c \in Conns \ {d} :
+             LET bc == PreRow(Lg, c)  ac == LConnRow(Lg, c) IN
+             (bc[3] # 0 /\ bc[2] = b[2] /\ (ac[2] # bc[2] \/ ac[3] # bc[3])) =>
+                Count(od, LAMBDA m : m.t = "LEAVE_BROADCAST" /\ m.pid = bc[3]) = 1
+        \* nothing is relayed twice, nothing comes back to its cause
+        /\ \A i, j \in DOMAIN od : (i < j /\ od[i] = od[j]) => od[i].t \notin Relays
+
 \* the model-state invariants of RelayConc, while the specification explains the run
 M_Inv == ~lost => NoOrphan /\ SidUnique /\ SidSource /\ NoLockLeft /\ OwnSane
 =============================================================================
